@@ -23,9 +23,15 @@ Few(w) == { Zero(w), FromNat(1, w), FromNat(7, w), Ones(w), MinSigned(w), MaxSig
            \cup (IF Thorough THEN { FromNat(3, w), Sub(Ones(w), FromNat(1, w)), Shl(FromNat(1, w), w \div 2),
                                     Mul(FromNat(193, w), Shl(FromNat(1, w), w - 8)) } ELSE {})
 TreeOperands(w) == { FromNat(1, w), FromNat(3, w), Ones(w), MinSigned(w) } \cup (IF Thorough THEN { MaxSigned(w), FromNat(w - 1, w) } ELSE {})
+\* further operands for the thorough tier: small values, -3, max-1, 2^(w-2), alternating bit patterns, 2^(w/2)+1
+Pattern(w, byte) == [i \in 1..Limbs(w) |-> byte]
+More(w) == { FromNat(5, w), FromNat(10, w), Shl(FromNat(1, w), w - 2), Sub(Ones(w), FromNat(2, w)), Sub(MaxSigned(w), FromNat(1, w)),
+             Pattern(w, 85), Pattern(w, 170), Add(Shl(FromNat(1, w), w \div 2), FromNat(1, w)) }
 Operands(ty, o) == LET w == Width(ty)
-                   IN IF Mode = "tree" THEN TreeOperands(w) ELSE IF o \in {"/", "%"} /\ w >= 64 THEN Few(w)
-                      ELSE IF w = 128 /\ ~Thorough /\ Mode = "bin" THEN Few(w) \cup {FromNat(2, w), FromNat(127, w), FromNat(128, w)}
+                   IN IF Mode = "tree" THEN TreeOperands(w)
+                      ELSE IF Thorough THEN (IF o \in {"/", "%"} /\ w >= 64 THEN Bnd(w) ELSE Bnd(w) \cup More(w))
+                      ELSE IF o \in {"/", "%"} /\ w >= 64 THEN Few(w)
+                      ELSE IF w = 128 /\ Mode = "bin" THEN Few(w) \cup {FromNat(2, w), FromNat(127, w), FromNat(128, w)}
                       ELSE Bnd(w)
 \* bitwise operators and shifts on usize are an unconstrained cell (docs silent, code rejects): not enumerated
 BitTypes == {"u8", "u16", "u32", "u64", "u128"}
